@@ -73,6 +73,16 @@ fn install_panic_hook() {
             }
             None => "?".to_string(),
         };
+        if std::env::var("HARNESS_PANIC_MSG").is_ok() {
+            let msg = if let Some(s) = info.payload().downcast_ref::<&str>() {
+                s.to_string()
+            } else if let Some(s) = info.payload().downcast_ref::<String>() {
+                s.clone()
+            } else {
+                String::new()
+            };
+            eprintln!("panic at {}: {}", loc, &msg[..msg.len().min(1500)]);
+        }
         PANIC_LOC.with(|p| *p.borrow_mut() = loc);
     }));
 }
